@@ -377,6 +377,20 @@ func ruleTRUNCATECOVERS(p *Program, rep *Report) {
 			return true
 		}
 		switch x := v.(type) {
+		case *ssa.Parameter:
+			// the size is handed to a helper: every caller must compute it from the marker
+			pf := x.Parent()
+			pi := paramIndex(pf, x)
+			sites := p.callIndex().sites[pf]
+			if pi < 0 || len(sites) == 0 || exportedAPI(pf) {
+				return false
+			}
+			for _, site := range sites {
+				if pi >= len(site.Common().Args) || !anyDep(site.Parent(), site.Common().Args[pi], base, map[ssa.Value]bool{}, depth+1) {
+					return false
+				}
+			}
+			return true
 		case *ssa.Convert:
 			return anyDep(fn, x.X, base, seen, depth+1)
 		case *ssa.ChangeType:
